@@ -354,7 +354,26 @@ class Session:
         ok = a.rank == b.rank and all(x.same(y) or self.ctx.entails(x.size_term() == y.size_term()) for x, y in zip(a.shape, b.shape)) and a.dtype == b.dtype
         self.ensure(f"{label}:same-shape", ok)
         if ok:
-            self.forall(f"{label}:same-entries", a, lambda q: a.at(q) == b.at(q))
+            def same(q):
+                x, y = a.at(q), b.at(q)
+                # deterministic code run twice on the same inputs builds the same term: then nothing is left to prove
+                return z3.BoolVal(True) if z3.eq(z3.simplify(x), z3.simplify(y)) else x == y
+
+            self.forall(f"{label}:same-entries", a, same)
+
+    def candidate_instance(self, label, funcs, consts=None):
+        """a candidate counter-instance for the solver's last resort (see solve.hint_refute): concrete interpretations
+        funcs[name] = lambda *args: z3 term of input symbols, consts = {z3 constant: value}.  Never used to prove."""
+        self.ctx.ghost.setdefault("instance_hints", []).append({"label": label, "funcs": dict(funcs), "consts": dict(consts or {})})
+
+    def rng_mark(self):
+        """the position in the stream of random draws ('generator state')"""
+        return self.ctx.ghost.get("rng_position", 0)
+
+    def rng_reset(self, mark):
+        """continue drawing from an earlier stream position: the following draws are the same as those made after
+        rng_mark() returned `mark` (the model of torch.manual_seed / set_rng_state to the same state)"""
+        self.ctx.ghost["rng_position"] = mark
 
     def once(self, make):
         """the object under contract: made in the first round, the same object in the later rounds of a history
